@@ -31,8 +31,13 @@ pub fn compute_min_utxo(
     let index = coercion::expr_into_number(&x)?;
     let overhead = 160;
 
-    let total_bytes = if let Some(body) = tx_body {
-        let utxo = body.outputs.get(index as usize).unwrap();
+    // the remembered body may not hold this output (it can belong to an earlier round in
+    // which an optional output was dropped); fall back to the default size in that case
+    let known_output = tx_body
+        .as_ref()
+        .and_then(|body| usize::try_from(index).ok().and_then(|i| body.outputs.get(i)));
+
+    let total_bytes = if let Some(utxo) = known_output {
         let bytes = pallas::codec::minicbor::to_vec(utxo).unwrap().len() as i128;
         bytes + overhead
     } else {
